@@ -26,11 +26,11 @@ theorem numElemOk (k : Str) (hk : KeyOk ';' k) (n : Nat) : (Elem.plain k (dec n)
 theorem RtpInfoEntry.unmarshal_marshal (e : RtpInfoEntry) (wf : e.WellFormed) :
     RtpInfoEntry.unmarshalWith keyValParse e.marshal = .ok e := by
   have hurl : (Elem.plain cs!"url" e.url).Ok ';' := ⟨by key_ok, wf.noSemi, wf.noQuote⟩
+  have hseq : ∀ n, (Elem.plain cs!"seq" (dec n)).Ok ';' := numElemOk _ (by key_ok)
+  have hts : ∀ n, (Elem.plain cs!"rtptime" (dec n)).Ok ';' := numElemOk _ (by key_ok)
   have hok : ∀ x ∈ e.elems, x.Ok ';' := by
-    intro x hx
     obtain ⟨u, s, t⟩ := e
-    cases s <;> cases t <;> simp [RtpInfoEntry.elems] at hx <;>
-      rcases hx with hx | hx | hx <;> subst hx <;> first | exact hurl | exact numElemOk _ (by key_ok) _
+    cases s <;> cases t <;> simp [RtpInfoEntry.elems, hurl, hseq, hts]
   have hnd : (e.elems.map Elem.key).Nodup := by
     obtain ⟨u, s, t⟩ := e
     cases s <;> cases t <;> simp [RtpInfoEntry.elems, Elem.key]
